@@ -17,9 +17,9 @@ for i in $(seq 1 $n); do
   grep "FAIL \[" $wt/suite_$i.log | awk '{print $NF}' | sort -u | tr '\n' ' '; echo
   mv /tmp/demo-stash-$$/*.rs crates/steel-core/tests/ 2>/dev/null
   echo "--- demo with change"
-  cargo test -p steel-core --offline --test ${prefix}_$i 2>&1 | grep -E "test result|observed|panicked" | head -5
+  cargo test -p steel-core --offline $FEATURES --test ${prefix}_$i 2>&1 | grep -E "test result|observed|panicked" | head -5
   git checkout -- crates
   echo "--- demo without change"
-  cargo test -p steel-core --offline --test ${prefix}_$i 2>&1 | grep -E "test result|observed|panicked" | head -5
+  cargo test -p steel-core --offline $FEATURES --test ${prefix}_$i 2>&1 | grep -E "test result|observed|panicked" | head -5
 done
 echo DONE
